@@ -720,6 +720,14 @@ def check(ctx):
     # traits, capacity) before it is marked up, whatever it still holds
     with ctx.shared({'C08': 'C03.3'}):
         c08._presence(ctx)
+    # shared with C01.5 / C11.1: the partition and traits the guards read are
+    # the declared ones - a server record that is read again replaces the
+    # server unless nothing changed (labels, capacity, traits, parent), and
+    # a server carries the partition its record names
+    from . import c11
+    with ctx.shared({'C01': 'C03.3', 'C11': 'C03.3'}):
+        c01._declared_capacity(ctx)
+        c11._recorded_topology(ctx, ctx.index.get_class(K.LOADER, 'Loader'))
 
 
 _S = 'lib/python/treadmill/scheduler/__init__.py'
